@@ -273,18 +273,25 @@ def gen_tie(pid: str):
         if rc != 0:
             out.update(ok=False, failed="GSrc.v (generated from the source) does not type-check", log=(o + e)[-3000:])
             return out
-        for fn in files:
+        def one(fn):
             shutil.copy(os.path.join(COQ, "Gen", fn), os.path.join(d, fn))
-            rc, o, e = sh(f"timeout 600 coqc {flags} {fn}", cwd=d, timeout=630)
+            rc, o, e = sh(f"timeout 900 coqc {flags} {fn}", cwd=d, timeout=930)
+            return fn, rc, o, e
+
+        # EqStats.v first (the others import it), then the rest in parallel
+        results = [one(files[0])]
+        if results[0][1] == 0 and len(files) > 1:
+            with ThreadPoolExecutor(max_workers=4) as ex:
+                results += list(ex.map(one, files[1:]))
+        for fn, rc, o, e in results:
             names = [n for n in _theorem_names(os.path.join(d, fn))]
             out["theorems"] += [f"Gen.{fn[:-2]}.{n}" for n in names]
             out["axioms"] += _axioms(o)
-            if rc != 0:
+            if rc != 0 and out["ok"]:
                 m = re.findall(r'File "\./([^"]+)", line (\d+)', o + e)
                 where = f"Gen/{m[-1][0]}:{m[-1][1]}" if m else f"Gen/{fn}"
                 lemma = _lemma_at(os.path.join(d, fn), int(m[-1][1])) if m else None
                 out.update(ok=False, failed=f"{where}" + (f" ({lemma})" if lemma else "") + " -- generated definition no longer equals the model" + (f"; untranslated: {errors}" if errors else ""), log=(o + e)[-3000:])
-                return out
         return out
     finally:
         shutil.rmtree(d, ignore_errors=True)
